@@ -283,6 +283,16 @@ class Program:
                     self.modules[name] = Module(name, rel, src, is_pkg, foreign_attrs=foreign, pkg_consts=pkg_consts, lit_consts=lit_consts)
             except SyntaxError as e:
                 raise AnalysisError(f"cannot parse {rel}: {e}")
+        from .inline import expand_thin_record_methods
+        from .known_names import KNOWN as _KNOWN
+        for mname_, lg_ in expand_thin_record_methods({n_: m_.tree for n_, m_ in self.modules.items() if n_.startswith("dds") and not n_.startswith("dds_tests")},
+                                                      {k_: set(v_) for k_, v_ in _KNOWN.items()}).items():
+            self.modules[mname_].inlined += sorted(set(lg_))
+            mod_ = self.modules[mname_]
+            mod_.parent = {}
+            for p_ in ast.walk(mod_.tree):
+                for c_ in ast.iter_child_nodes(p_):
+                    mod_.parent[c_] = p_
         for m in self.modules.values():
             self._index_module(m)
         for c in self.classes.values():
